@@ -16,15 +16,19 @@ ASSUMPTIONS = [
     "the gap is the tolerance comparison (tol 1e-7) and R_trace (vertex within 1e-9)",
     "solve_lp_interior: only the verdict logic is checked (OPTIMAL/FEASIBLE claims, no crash); the Newton/"
     "Cholesky step is not modelled",
-    "the statement 'the mirror emits a valid certificate on EVERY input' (simplex_certifies) is not proved; "
-    "instead the verified checkers are evaluated on the certificate of every explored input",
+    "the statement 'the mirror emits a valid certificate on EVERY input' is proved only for LPs that need no "
+    "phase 1 (simplex_certifies_partial); in general the verified checkers are evaluated on the certificate of "
+    "every explored input",
 ]
 RULE = ("structured LPs (random, bounded, degenerate vertex, phase-1/equality pairs, infeasible, unbounded; "
         "duplicated/parallel/zero rows, zero columns; integer and dyadic data; both senses; m,n <= 6 quick / "
         "<= 10 thorough; a share with tiny max_iter); non-trivial = phase 1 ran or >= 2 pivots in the mirror; "
         "distinct by canonical (c, A, b, minimize, options)")
 
-MISSING = ['simplex_certifies [S]: the mirror emits a valid certificate on every input (tableau invariant); replaced by evaluating the verified checkers on every explored input']
+MISSING = ["simplex_certifies [S] in full: 'the mirror emits a valid certificate on every input' is proved for LPs "
+           "without phase 1 (b >= 0, eps = 0: simplex_certifies_partial, via the tableau invariant Inv/inv_step); the "
+           "extension over the artificial columns of phase 1 is open and is replaced by evaluating the verified "
+           "checkers on the certificate of every explored input"]
 
 TOL = 1e-7          # property tolerance for solve_lp
 VTOL = 1e-9         # R_trace vertex tolerance
